@@ -721,6 +721,35 @@ func TestC09Giant(t *testing.T) {
 			}
 		})
 	})
+	// "white if it exposes no colour scheme": literally white, also when the application has replaced the library's
+	// exported default scheme (this test function runs alone in its process; the variable is restored)
+	if !ct.Failed() {
+		ct.guard(func() {
+			src, _, _ := encodeSpec(EncSpec{Fam: "ean", Content: BStr("5901234123457")})
+			W := src.Bounds().Dx()
+			saved := barcode.ColorScheme16
+			barcode.ColorScheme16 = barcode.ColorScheme{Model: color.Gray16Model, Background: color.Gray16{Y: 0x1111}, Foreground: color.Gray16{Y: 0xeeee}}
+			defer func() { barcode.ColorScheme16 = saved }()
+			s1, err1 := barcode.Scale(src, W+10, 4)
+			if err1 != nil {
+				failf(ct, "C09", "scale-giant", GiantCase{}, "Scale: %v", err1)
+			}
+			if _, exposes := s1.(barcode.BarcodeColor); !exposes {
+				s2, err2 := barcode.Scale(s1, W+40, 4)
+				if err2 != nil {
+					failf(ct, "C09", "scale-giant", GiantCase{}, "Scale of a scaled barcode: %v", err2)
+				}
+				for _, x := range []int{0, 1, 7, W + 39, W + 33} {
+					if px := s2.At(x, 2); px != color.White {
+						failf(ct, "C09", "scale-giant", GiantCase{Source: EncSpec{Fam: "ean", Content: BStr("5901234123457")}, Pre: [2]int{W + 10, 4}, W: W + 40, H: 4},
+							"a source that exposes no colour scheme was scaled while the application's barcode.ColorScheme16 is a dark scheme: margin pixel (%d,2) is %v, the default fill for such a source is white", x, px)
+					}
+				}
+			}
+			st.Eval()
+			st.Class("default fill of a scheme-less source while barcode.ColorScheme16 is reassigned")
+		})
+	}
 	st.Sample("giant", cases[1])
 	if ct.Failed() {
 		t.Fatalf("%s", ct.first)
